@@ -5,7 +5,7 @@ bump C10). Hand-written primitives live in zz_contracts_store_verif.go."""
 import re
 src=open('/repo/dataStoreCommands.go').read()
 names=re.findall(r'^func \(dsc \*dataStoreCommand\) (\w+)\(', src, re.M)
-SKIP={'lpushUnlocked','rpushUnlocked','lpopUnlocked','rpopUnlocked','removeUnlocked','linsertBeforeUnlocked','linsertAfterUnlocked','flush','dictScanUnlocked','setModified','lock','unlock','unlockAndUnblock','acquireExclusive','releaseExclusive','getKeyObjectUnlocked','setDirty'}
+SKIP={'findListItem','lpushUnlocked','rpushUnlocked','lpopUnlocked','rpopUnlocked','removeUnlocked','linsertBeforeUnlocked','linsertAfterUnlocked','flush','dictScanUnlocked','setModified','lock','unlock','unlockAndUnblock','acquireExclusive','releaseExclusive','getKeyObjectUnlocked','setDirty'}
 HELPERS={'setModified','diffWorker','intersectWorker','intersectWithLimitWorker','unionWorker','findListItem'}
 MUTHELPERS={'setModified','lpushUnlocked','rpushUnlocked','lpopUnlocked','rpopUnlocked','removeUnlocked','linsertBeforeUnlocked','linsertAfterUnlocked','ensureListUnlocked','newListUnlocked','setAddWorkerUnlocked'}
 WORKERS={'diffWorker','intersectWorker','intersectWithLimitWorker','unionWorker'}
@@ -13,12 +13,12 @@ NOVER={'linsertBeforeUnlocked','linsertAfterUnlocked'}
 EXTRA={
  'linsert': ['//@ loop "for pivotItem = list.head" invariant [C03] pivot: pivotItem != nil ==> (pivotItem.owner == list && 0 <= pivotItem.idx && pivotItem.idx < list.count && list.seq[pivotItem.idx] == pivotItem)',
              '//@ requires free bounded: true'],
- 'lpush': ['//@ ensures [C11] wakes: mutated ==> gWakeRequested == len(values) && gWakeKey == keyName', '//@ loopinv [C03] bounded: list != nil ==> list.count < (1<<56) + ri1', '//@ requires free sizes: len(values) < (1<<40)'],
- 'rpush': ['//@ ensures [C11] wakes: mutated ==> gWakeRequested == len(values) && gWakeKey == keyName', '//@ loopinv [C03] bounded: list != nil ==> list.count < (1<<56) + ri1', '//@ requires free sizes: len(values) < (1<<40)'],
- 'lpushx': ['//@ ensures [C11] wakes: mutated ==> gWakeRequested == len(values) && gWakeKey == keyName', '//@ loopinv [C03] bounded: list != nil ==> list.count < (1<<56) + ri1', '//@ requires free sizes: len(values) < (1<<40)'],
- 'rpushx': ['//@ ensures [C11] wakes: mutated ==> gWakeRequested == len(values) && gWakeKey == keyName', '//@ loopinv [C03] bounded: list != nil ==> list.count < (1<<56) + ri1', '//@ requires free sizes: len(values) < (1<<40)'],
- 'getListUnlocked': ['// keyspace invariant (C06): a list found in the keyspace is not empty - every command that shrinks or creates a list proves noempty at its exit', '//@ ensures free nonempty: list != nil ==> list.count > 0', '//@ ensures [C03] listwf: list != nil ==> listWF(list)', '//@ ensures [C03] listsize: list != nil ==> list.count < (1<<56)', '//@ use storeKey.getList.listwf', '//@ include listsframe'],
- 'ensureListUnlocked': ['//@ include listsframe', '//@ use dataStoreCommand.getListUnlocked.lists.kept dataStoreCommand.getListUnlocked.items.kept', '//@ ensures [C03] listwf: list != nil ==> listWF(list)', '//@ ensures [C03] listsize: list != nil ==> list.count < (1<<56)', '//@ ensures [C03] nonnil: err == nil ==> list != nil', '//@ use storeKey.getList.listwf dataStoreCommand.getListUnlocked.listwf'],
+ 'lpush': ['//@ ensures [C11] wakes: mutated ==> gWakeRequested == len(values) && gWakeKey == keyName', '//@ loopinv [C03] bounded: list != nil ==> list.count < (1<<40) + ri1', '//@ requires free sizes: len(values) < (1<<40)'],
+ 'rpush': ['//@ ensures [C11] wakes: mutated ==> gWakeRequested == len(values) && gWakeKey == keyName', '//@ loopinv [C03] bounded: list != nil ==> list.count < (1<<40) + ri1', '//@ requires free sizes: len(values) < (1<<40)'],
+ 'lpushx': ['//@ ensures [C11] wakes: mutated ==> gWakeRequested == len(values) && gWakeKey == keyName', '//@ loopinv [C03] bounded: list != nil ==> list.count < (1<<40) + ri1', '//@ requires free sizes: len(values) < (1<<40)'],
+ 'rpushx': ['//@ ensures [C11] wakes: mutated ==> gWakeRequested == len(values) && gWakeKey == keyName', '//@ loopinv [C03] bounded: list != nil ==> list.count < (1<<40) + ri1', '//@ requires free sizes: len(values) < (1<<40)'],
+ 'getListUnlocked': ['// keyspace invariant (C06): a list found in the keyspace is not empty - every command that shrinks or creates a list proves noempty at its exit', '//@ ensures free nonempty: list != nil ==> list.count > 0', '//@ ensures [C03] listwf: list != nil ==> listWF(list)', '//@ ensures [C03] listsize: list != nil ==> list.count < (1<<40)', '//@ use storeKey.getList.listwf', '//@ include listsframe'],
+ 'ensureListUnlocked': ['//@ include listsframe', '//@ use dataStoreCommand.getListUnlocked.lists.kept dataStoreCommand.getListUnlocked.items.kept', '//@ ensures [C03] listwf: list != nil ==> listWF(list)', '//@ ensures [C03] listsize: list != nil ==> list.count < (1<<40)', '//@ ensures [C03] nonnil: err == nil ==> list != nil', '//@ use storeKey.getList.listwf dataStoreCommand.getListUnlocked.listwf'],
  'newListUnlocked': ['//@ include listsframe', '//@ use dataStoreCommand.getListUnlocked.lists.kept dataStoreCommand.getListUnlocked.items.kept', '//@ ensures [C03] listwf: list != nil && listWF(list)', '//@ use storeKey.getList.listwf dataStoreCommand.getListUnlocked.listwf'],
  'expire': ['//@ ensures internal [C07] table: exists ==> ((output.data == respInt(1)) == ((nx && !(old(sk.expiresAt) < maxTime)) || (!nx && xx && old(sk.expiresAt) < maxTime) || (!nx && !xx && gt && expiration > old(sk.expiresAt)) || (!nx && !xx && !gt && lt && expiration < old(sk.expiresAt)) || (!nx && !xx && !gt && !lt)))',
             '//@ ensures internal [C07] applied: exists && output.data == respInt(1) ==> sk.expiresAt == expiration',
@@ -63,7 +63,7 @@ EXTRA={
             '//@ assertbefore "element := item.element" [C03] source.end: item == ite(srcLeft, gSrcHead, gSrcTail)',
             '//@ assertbefore "dsc.lpushUnlocked(destKeyName, destList, element)" [C03] dest.left: destLeft',
             '//@ assertbefore "dsc.rpushUnlocked(destKeyName, destList, element)" [C03] dest.right: !destLeft',
-            '//@ assertbefore "output.data = respBulkString(element)" [C03] moved.one: uk.elements == 1',
+            '//@ assertbefore "output.data = respBulkString(element)" [C03,C11] moved.one: uk.elements == 1 && uk.keyName == destKeyName',
             '//@ ghostbefore "var item *listItem" : gSrcCount = srcList.count',
             '//@ ghostbefore "var item *listItem" : gDstCount = destList.count',
             '//@ requires !gMoved',
@@ -90,8 +90,8 @@ EXTRA={
  'getIds': ['//@ modifies storeKey.lastAccess ghost.held ghost.lookupAbsent ghost.now alloc'],
  'restore': ['//@ ensures internal [C06,C13] restored.string: output.data == rstrOK ==> mutated && flagHasOne(newSk.flags, FLAG_KEY_TYPE_STRING) && istype(newSk.payload, []byte) && len(unbox(newSk.payload, []byte)) == len(serializedData) - 14',
             '//@ ensures [C06] refused.inert: output.data != rstrOK ==> !mutated'],
- 'hashTableScan': ['//@ touches C17', '//@ requires [C17,C13] count.positive: count >= 1', '//@ requires !scanStarted'],
- 'setScan': ['//@ touches C17', '//@ requires [C17,C13] count.positive: count >= 1', '//@ requires !scanStarted'],
+ 'hashTableScan': ['// every HSCAN call on a hash is one step of the shared walk, with the caller\'s cursor, pattern and budget', '//@ ensures internal [C17] stepped: objExists && m != nil ==> scanStarted && gScanPattern == pattern && gScanCursor0 == cursor && gScanCount == count', '//@ touches C17', '//@ requires [C17,C13] count.positive: count >= 1', '//@ requires !scanStarted'],
+ 'setScan': ['//@ ensures internal [C17] stepped: objExists && m != nil ==> scanStarted && gScanPattern == pattern && gScanCursor0 == cursor && gScanCount == count', '//@ touches C17', '//@ requires [C17,C13] count.positive: count >= 1', '//@ requires !scanStarted'],
  'deleteSetMembers': ['//@ loop "for _, memberName := range memberNames" invariant [C06] noempty.loop: m != nil && (removed > 0 ==> m.count > 0)', '//@ assertafter "for _, memberName := range memberNames" [C06] noempty: removed > 0 && m.count == 0 ==> !dsc.ds.data.vdom[keyName]'],
  'lrange': [
    # LRANGE returns exactly the window [S, min(E, n-1)] of the list: S and E are the Redis normalisation of the arguments
@@ -121,6 +121,42 @@ EXTRA={
  'sort': [
    # SORT ... STORE: the destination is replaced; an empty result leaves no key (C06: no empty list)
    '//@ assertbefore "output.data = respInt(len(a))" [C06] store.noempty: len(a) == 0 ==> !dsc.ds.data.vdom[destKeyName]'],
+ 'llen': ['//@ ensures internal [C03] length: err == nil ==> output.data == respInt(ite(list != nil, list.count, 0))'],
+ 'lindex': [
+   # LINDEX replies the element at the index counted from the head (>= 0) or from the tail (< 0), nil outside the list
+   '//@ loop 1 invariant [C03] walk.fwd: 0 <= index && index <= old(index) && old(index) < list.count && item == list.seq[old(index) - index]',
+   '//@ loop 2 invariant [C03] walk.bwd: 0 <= index && index <= -(old(index)+1) && -(old(index)+1) < list.count && item == list.seq[list.count + old(index) + index]',
+   '//@ assertbefore "output.data = respBulkString(string(item.element))" [C03] picked: item == list.seq[ite(old(index) >= 0, old(index), list.count + old(index))]',
+   '//@ ensures internal [C03] outside: err == nil && list != nil && (old(index) >= list.count || old(index) < -list.count) ==> output.data == nil',
+   '//@ ensures internal [C03] inside: err == nil && list != nil && -list.count <= old(index) && old(index) < list.count ==> istype(output.data, respBulkString)'],
+ 'lset': [
+   '//@ mode int', '//@ use *',
+   '//@ assertbefore "item.element = []byte(element)" [C03] target: item == list.seq[ite(old(count) < 0, list.count + old(count), old(count))]',
+   '//@ ensures internal [C03] range: err == nil && list != nil && list.count > 0 && (ite(old(count) < 0, list.count + old(count), old(count)) < 0 || ite(old(count) < 0, list.count + old(count), old(count)) >= list.count) ==> istype(output.data, respErrorString) && !mutated && !bumped',
+   '//@ ensures internal [C03] done: err == nil && list != nil && list.count > 0 && 0 <= ite(old(count) < 0, list.count + old(count), old(count)) && ite(old(count) < 0, list.count + old(count), old(count)) < list.count ==> output.data == rstrOK'],
+ 'lpop': [
+   '//@ requires [C13,C03] count.nonneg: count >= 0',
+   '//@ loopinv [C03] popped.budget: len(values) + count == ite(old(count) > gN0, gN0, old(count))',
+   # LPOP replies the first min(count, n) elements in list order and leaves the rest in order
+   '//@ ghostafter "list, err := dsc.getListUnlocked(keyName)" : gSeq0 = list.seq',
+   '//@ ghostafter "list, err := dsc.getListUnlocked(keyName)" : gN0 = list.count',
+   '//@ loopinv [C03] popped: len(values) + list.count == gN0 && count >= 0 && count <= list.count',
+   '//@ loopinv [C03] popped.values: all(k, 0, len(values), values[k] == gSeq0[k].element)',
+   '//@ loopinv [C03] popped.rest: all(i, 0, list.count, list.seq[i] == gSeq0[i + len(values)])',
+   '//@ ensures internal [C03] reply.len: err == nil && list != nil ==> len(values) == ite(old(count) < gN0, ite(old(count) < 0, 0, old(count)), gN0)',
+   '//@ ensures internal [C03] reply.values: err == nil && list != nil ==> all(k, 0, len(values), values[k] == gSeq0[k].element)',
+   '//@ ensures internal [C03] rest: err == nil && list != nil ==> all(i, 0, list.count, list.seq[i] == gSeq0[i + len(values)])'],
+ 'rpop': [
+   '//@ requires [C13,C03] count.nonneg: count >= 0',
+   '//@ loopinv [C03] popped.budget: len(values) + count == ite(old(count) > gN0, gN0, old(count))',
+   '//@ ghostafter "list, err := dsc.getListUnlocked(keyName)" : gSeq0 = list.seq',
+   '//@ ghostafter "list, err := dsc.getListUnlocked(keyName)" : gN0 = list.count',
+   '//@ loopinv [C03] popped: len(values) + list.count == gN0 && count >= 0 && count <= list.count',
+   '//@ loopinv [C03] popped.values: all(k, 0, len(values), values[k] == gSeq0[gN0 - 1 - k].element)',
+   '//@ loopinv [C03] popped.rest: all(i, 0, list.count, list.seq[i] == gSeq0[i])',
+   '//@ ensures internal [C03] reply.len: err == nil && list != nil ==> len(values) == ite(old(count) < gN0, ite(old(count) < 0, 0, old(count)), gN0)',
+   '//@ ensures internal [C03] reply.values: err == nil && list != nil ==> all(k, 0, len(values), values[k] == gSeq0[gN0 - 1 - k].element)',
+   '//@ ensures internal [C03] rest: err == nil && list != nil ==> all(i, 0, list.count, list.seq[i] == gSeq0[i])'],
  'lmpop': ['//@ loop "for _, keyName := range keyNames" invariant [C06] nomut: !mutated', '//@ loop 2 invariant [C06] noempty.left: list.count == 0 ==> !dsc.ds.data.vdom[keyName]', '//@ loop 3 invariant [C06] noempty.right: list.count == 0 ==> !dsc.ds.data.vdom[keyName]', '//@ assertbefore "result = []any{keyName, elements}" [C06] noempty: list.count == 0 ==> !dsc.ds.data.vdom[keyName]'],
  'addInt': ['//@ ghostafter "value, err = strconv.ParseInt" : gParsed = value',
             '//@ ghostafter "canonical := strconv.FormatInt(value, 10)" : gParsedOK = (err == nil && canonical)',
@@ -145,7 +181,7 @@ EXTRA={
             '//@ ensures [C04] options.seen: gHashOptions == options',
             '//@ requires [C13] samelen: len(values) >= len(fieldNames)'],
  'getKey': ['//@ ensures free strsize: len(val) <= 536870912', '//@ ensures [C07,C06] readonly: !mutated'],
- 'getKeyBytes': ['//@ ensures free strsize: len(val) <= 536870912', '//@ ensures [C07,C06] readonly: !mutated'],
+ 'getKeyBytes': ['//@ ensures free strsize: len(val) <= 536870912', '//@ ensures [C07,C06] readonly: !mutated', '// the bytes are used by the caller after the lock is released, while SETBIT/BITFIELD write the stored array in place: what is handed out is a slice this call made itself, with the stored content (C08: a snapshot; C16: no memory shared outside the lock)', '//@ ensures internal [C08,C16,C18] snapshot: exists == VALUE_EXISTS ==> madehere(val) && len(val) == len(strBytes) && allsel(k, 0, len(val), val[k] == strBytes[k])'],
  'setRange': ['//@ requires [C13,C02] offset.range: 0 <= offset && offset <= 536870912 && len(substring) <= 536870912 - offset',
             '//@ ensures [C02] empty.inert: len(substring) == 0 ==> !mutated',
             '//@ ensures internal [C02] length: mutated ==> istype(newSk.payload, []byte) && result.data == respInt(len(unbox(newSk.payload, []byte))) && len(unbox(newSk.payload, []byte)) >= offset + len(substring) && flagHasOne(newSk.flags, FLAG_KEY_TYPE_STRING)',
